@@ -16,7 +16,7 @@ RULE = ("generated transactions of the three kinds: every numeric field from {0,
         "sender recovery; a case is distinct by its document and key")
 TRUSTED = ["C06: Keccak-256, secp256k1, RFC 6979 are executable Gallina re-implementations (Prim/), opaque to the theorems",
            "C06: serde derive semantics of the three transaction structs (required/default/Option keys, unknown keys ignored) as "
-           "stated in Model/Tx.v", "C06: serde_json's reading of the bytes is modelled in Model/JsonText.v and compared on every run (clause json-text-vs-model); which double its floating-point reader returns is compared up to 2 ulp, not modelled (DESIGN 4.4)"]
+           "stated in Model/Tx.v", "C06: serde_json's reading of the bytes is modelled in Model/JsonText.v and compared on every run (clause json-text-vs-model), and the transaction model is also evaluated from the document's own bytes for float-free documents (clauses (from text)); which double its floating-point reader returns is compared up to 2 ulp, not modelled (DESIGN 4.4)"]
 N = SECP_N
 
 
